@@ -414,4 +414,70 @@ theorem qstep_ok (q : EQ) (op : EqOp) (m : Mem) (h : QInv q)
     rw [if_pos ⟨rfl, by rw [abs_length]; exact hc.1, rfl⟩, ← habs]
     exact check_abs q' _ _ _ _
 
+/-! ### creation, release, whole runs -/
+
+theorem init_spec (r : RecLen) (m : Mem) :
+    match EQueue.init r m with
+    | (some q, m') => QInv q ∧ q.reclen = r ∧ EQueue.abs q = [] ∧ q.offset = 0 ∧ q.len = 0 ∧
+        m'.live = m.live + 2 + bufBlocks q.ea ∧ m'.refusals = m.refusals
+    | (none, m') => m'.live = m.live ∧ m'.refusals > m.refusals := by
+  unfold EQueue.init
+  cases hr : (m.malloc EQueue.structSize).1
+  · have hf := malloc_fail hr
+    rw [pair_eta _ hr]
+    simp only
+    exact ⟨hf.2.1, by omega⟩
+  · have hf := malloc_ok hr
+    rw [pair_eta _ hr]
+    simp only
+    have hs := EArray.init_spec 0 r (m.malloc EQueue.structSize).2
+    rcases hres : EArray.init 0 r (m.malloc EQueue.structSize).2 with ⟨oa, m2⟩
+    rw [hres] at hs
+    cases oa with
+    | none =>
+      simp only at hs ⊢
+      have f := free_facts m2 false
+      refine ⟨by rw [f.2.1]; simp; omega, ?_⟩
+      rw [f.1]
+      rcases hs.2 with h1 | h1
+      · omega
+      · simp [SIZE_MAX_eq] at h1
+    | some a =>
+      simp only at hs ⊢
+      obtain ⟨hinv, _, hsz, _, hlive, hrf⟩ := hs
+      exact ⟨⟨hinv, by simp [hsz]⟩, by triv, by first | trivial | rfl | simp [EQueue.abs, chunks], by triv, by triv, by omega, by omega⟩
+
+theorem free_live (q : EQ) (m : Mem) : (EQueue.free q m).live = m.live - 2 - bufBlocks q.ea := by
+  simp only [EQueue.free]
+  rw [(free_facts _ false).2.1, EArray.free_live]; simp; omega
+
+/-- the caller keeps its side of the contract at every operation of the run -/
+def Contracts (q : EQ) : List EqOp → Mem → Prop
+  | [], _ => True
+  | op :: rest, m => eqContract q.reclen.val (EQueue.abs q) op ∧
+      Contracts (EQueue.step q op m).2.1 rest (EQueue.step q op m).2.2
+
+theorem run_ok : ∀ (ops : List EqOp) (q : EQ) (m : Mem), QInv q → Contracts q ops m →
+    (q.offset + q.len + ops.length) * q.reclen.val ≤ EArray.SIZE_MAX →
+    QInv (EQueue.run q ops m).2.1 ∧
+    eqAdmitAll (EQueue.abs q) (EQueue.run q ops m).1 = some (EQueue.abs (EQueue.run q ops m).2.1)
+  | [], q, m, h, _, _ => ⟨h, rfl⟩
+  | op :: rest, q, m, h, hc, hsm => by
+    obtain ⟨hc1, hc2⟩ := hc
+    have hsm1 : (q.offset + q.len + 1) * q.reclen.val ≤ EArray.SIZE_MAX :=
+      Nat.le_trans (Nat.mul_le_mul_right _ (by simp only [List.length_cons]; omega)) hsm
+    have hs := qstep_ok q op m h hc1 hsm1
+    unfold QStepOk at hs
+    obtain ⟨s1, s2, s3, s4⟩ := hs
+    have ih := run_ok rest (EQueue.step q op m).2.1 (EQueue.step q op m).2.2 s1 hc2
+      (by rw [s2]; exact Nat.le_trans (Nat.mul_le_mul_right _ (by simp only [List.length_cons]; omega)) hsm)
+    simp only [EQueue.run]
+    rcases hst : EQueue.step q op m with ⟨an, q', m'⟩
+    rw [hst] at s3 ih
+    simp only at s3 ih ⊢
+    rcases hrun : EQueue.run q' rest m' with ⟨tr, q'', m''⟩
+    rw [hrun] at ih
+    simp only at ih ⊢
+    exact ⟨ih.1, by simp only [eqAdmitAll, s3]; exact ih.2⟩
+
 end Percival.Proofs.EQueue
